@@ -17,10 +17,14 @@ type VerifC05Facts struct {
 	CookieOff, CookieLen          int
 }
 
+var verifC05Slab Request
+
 // VerifC05ParseWire runs the real Request.ParseWire on raw and reports its
 // verdict and the parsed facts.
 func VerifC05ParseWire(raw []byte) (bool, VerifC05Facts) {
-	var r Request
+	// one Request reused for every call, as a transport job slab is: whatever a
+	// previous packet left behind must not show in this packet's facts
+	r := &verifC05Slab
 	ok := r.ParseWire(raw, time.Time{}, nil)
 	if !ok {
 		return false, VerifC05Facts{}
